@@ -177,7 +177,8 @@ def t_query(q, o, ctes):
             if n:
                 out.append(("sym", ","))
             if it[0] == "star":
-                out.append(("id", (o.local(it[1]) + "." if it[1] else "") + "*"))
+                qp = "" if not it[1] else (".".join(o.ident(x) for x in it[1].split(".")) if "." in it[1] else o.local(it[1])) + "."
+                out.append(("id", qp + "*"))
             else:
                 out += t_expr(it[1], o, ctes)
                 if it[2] is not None:
